@@ -8,6 +8,8 @@ the next delivery/drain event or to the timeout) and, optionally, by a fixed
 """
 import socket as _socket
 
+from simkit.core import Unsimulated
+
 INF = float('inf')
 
 
@@ -28,6 +30,18 @@ class SimClock:
         self.reads += 1
         self.now += self.tick
         return self.now
+
+    def monotonic(self):
+        return self.time()
+
+    perf_counter = monotonic
+
+    def sleep(self, d):
+        if d > 0:
+            self.advance_to(self.now + d)
+
+    def __getattr__(self, name):
+        raise Unsimulated('time.%s is not simulated' % name)
 
     def advance_to(self, t):
         if t > self.now:
@@ -215,7 +229,32 @@ class SimSocket:
         return k
 
     def sendall(self, data, flags=0):
-        raise AssertionError('BufferedSocket never calls sock.sendall')
+        data = bytes(data)
+        while data:
+            n = self.send(data)
+            data = data[n:]
+
+    def recv_into(self, buf, nbytes=0, flags=0):
+        n = nbytes or len(buf)
+        data = self.recv(n)
+        buf[:len(data)] = data
+        return len(data)
+
+    def setblocking(self, flag):
+        self.settimeout(None if flag else 0.0)
+
+    def getsockopt(self, *a):
+        return 0
+
+    def setsockopt(self, *a):
+        return None
+
+    def __getattr__(self, name):
+        raise Unsimulated('socket.%s is not simulated' % name)
+
+    type = _socket.SOCK_STREAM
+    family = _socket.AF_INET
+    proto = 0
 
     def close(self):
         self.closed = True
